@@ -1,4 +1,6 @@
-(* Dispatcher for C17: Plane.rescale (op 1) and Plane.resample (op 2) on exact rationals.
+(* Dispatcher for C17: Plane.rescale (op 1) and Plane.resample (op 2) on exact rationals; op 3 = a history:
+   count, then (op q plane)* - every call is evaluated on the plane's attributes AT THAT MOMENT (the model has no
+   state), output = 0 :: concatenation of the individual results.
    input : op, q (scale | new pixelscale), amplitude fld, opd fld, mask msk, pixelscale option
    fld   : 0 q | 1 arr          msk : 0 q | 1 arr | 2 count arr*          arr : isint nr nc q*
    output: 0 :: ofld ofld omsk psopt   with  oarr = nr nc samp*,  samp = 0 num den | 1 (NonZero) | 2 (Unknown) *)
@@ -36,14 +38,27 @@ Definition eomsk (m : omsk) : list Z := match m with OMono a => 1 :: eoarr a | O
 Definition eoplane (P : oplane) : list Z :=
   eofld (o_amp P) ++ eofld (o_opd P) ++ eomsk (o_mask P) ++ eopt (fun p => eQ (fst p) ++ eQ (snd p)) (o_ps P).
 
+Definition call (op : Z) (q : Qc) (P : plane) : list Z :=
+  if op =? 1 then eresult eoplane (plane_rescale P q)
+  else if op =? 2 then eresult eoplane (plane_resample P q)
+  else emalformed.
+
+Definition pstep : parser (Z * Qc * plane) := op <- pZ ;; q <- pQ ;; P <- pplane ;; pret (op, q, P).
+
 Definition run (inp : list Z) : list Z :=
   match inp with
   | op :: rest =>
+    if op =? 3 then
+      match pall (plist pstep) rest with
+      | Some steps =>
+          if forallb (fun x => match x with (o, _, _) => (o =? 1) || (o =? 2) end) steps
+          then 0 :: flat_map (fun x => match x with (o, q, P) => call o q P end) steps
+          else emalformed
+      | None => emalformed
+      end
+    else
     match pall (q <- pQ ;; P <- pplane ;; pret (q, P)) rest with
-    | Some (q, P) =>
-        if op =? 1 then eresult eoplane (plane_rescale P q)
-        else if op =? 2 then eresult eoplane (plane_resample P q)
-        else emalformed
+    | Some (q, P) => call op q P
     | None => emalformed
     end
   | _ => emalformed
